@@ -72,6 +72,11 @@ Section Geometry.
       - destruct (no_pad_len E) as [L1 L2]. split; [exact L1|]. intros k Hk. rewrite L2.
         unfold px_pad_cond in E. replace ((0 <=? nst + k) && (nst + k <? N)) with true by lia. reflexivity. Qed.
 
+    (** the header of the returned block: read_block advances tstart by nstart_file samples, pad_samples moves it back by the leading
+        pad (C08_block_pad_samples), so it refers to sample nstart, the sample held by the first column *)
+    Lemma header_sample : (if px_pad_cond nst ns N then nstf - px_offset nst else nstf) = nst.
+    Proof. unfold px_pad_cond, nstf, px_offset. destruct ((nst <? 0) || (nst + ns >? N)) eqn:E; lia. Qed.
+
     (** in particular the sample at the centre of the block is the file's sample at the pulse's time of arrival *)
     Corollary centre_is_toa : 0 <= toa < N -> fst (px_get_row x padv toa pw dd mn N) (ns / 2) = x toa.
     Proof. intro Ht. destruct get_row_spec as [_ S]. destruct toa_block as [T1 T2]. rewrite (S (ns / 2) T2).
